@@ -36,7 +36,7 @@ import struct
 
 STREAMS = ['binary-cuts', 'binary-random', 'binary-coalesced', 'binary-malformed',
            'lines-scripted', 'handoff-real-client', 'handoff-real-server', 'handoff-cuts', 'handoff-bigtail', 'handoff-stub', 'binary-unparsable', 'limit-scaled', 'reentrant-delivery',
-           'parsed-after-framing']
+           'parsed-after-framing', 'connections-interleaved']
 THEOREMS = ['binary_partition_independent', 'frames_of_messages', 'line_partition_independent',
             'handoff', 'loop_bounded', 'delivers_messages_sent', 'delivers_messages_sent_after_handshake',
             'model_control_flow_matches_source',
@@ -246,10 +246,18 @@ def gen_message(rng, short=False, kinds=('ret', 'err', 'sig', 'call'), big=None)
     return raw, big, m
 
 
-def expected_of(raws):
-    """The messages sent, as the receiver should see them: each raw message parsed on its own."""
+def expected_of(raws, fds=()):
+    """The messages sent, as the receiver should see them: each raw message parsed on its own.  `fds` = the descriptors
+    queued on THIS connection, in arrival order: a message that announces n descriptors takes the next n."""
     _, message, _, _ = _mods()
-    return [canon_msg(message.parseMessage(r, [])) for r in raws]
+    fds, out = list(fds or []), []
+    for r in raws:
+        m = message.parseMessage(r, fds)
+        out.append(canon_msg(m))
+        n = getattr(m, 'unix_fds', None)
+        if isinstance(n, int) and not isinstance(n, bool):
+            fds = fds[n:]
+    return out
 
 
 # --------------------------------------------------------------------------------------- partitions
@@ -475,40 +483,42 @@ def classes(ctx):
     return _CLS[key]
 
 
-def observe(ctx, sc):
-    """Run one scenario on the real code.  -> dict(effects, final, parsed, raws, script, crashed)"""
-    from twisted.internet.testing import StringTransport
-    from txdbus import protocol
-    Basic, Server, StubAuth, Wrap, authentication = classes(ctx)
-    mode = sc['mode']
-    tr = StringTransport()
-    lose0 = tr.loseConnection
-    # the Linux-only SO_PEERCRED lookup of a server's first read: the transport always offers a socket, so the
-    # scenario runs whatever the platform switch says; when the switch is where we know it, both branches are driven
-    tr.socket = _FakeSocket()
-    if hasattr(protocol, '_is_linux'):
-        protocol._is_linux = bool(sc.get('linux')) and mode.endswith('server')
-    wrapbox = []
+class Conn:
+    """One connection on the real code, made the way a reactor makes it: `proto = Class()`, a public `authenticator`
+    hook, `proto.makeConnection(transport)`; every later change of its state comes from calls a transport makes
+    (`dataReceived`, `fileDescriptorReceived`, `connectionLost`).  Nothing of the receiver's state is set by hand
+    (state-leak round 2026-09-30, STATE_AUDIT G3): mode 'binary' reaches binary mode through a handshake read of its
+    own (`BEGIN` + stub authenticator), descriptors are queued through `fileDescriptorReceived`."""
 
-    def wrapped(cls_):
-        # the public hook `authenticator` (a class or any callable): record each handled line and its outcome
-        def make(*a):
-            w = Wrap(cls_(*a), p)
-            wrapbox.append(w)
-            return w
-        return make
-    try:
-        if mode == 'binary':
-            p = Basic()
-            p._rec_init()
-            p.swallow = bool(sc.get('swallow'))
-            p.transport = tr
-            p._receivedFDs = list(sc.get('fds') or [])
-            p._authenticated = True
-        else:
-            if mode in ('stub-client', 'stub-server'):
-                p = Basic() if mode == 'stub-client' else Basic.StubServer()
-                cls = type('StubAuthS', (StubAuth,), {'script': sc.get('script', '')})
+    PRELUDE = b'BEGIN\r\n'
+
+    def __init__(self, ctx, sc):
+        from twisted.internet.testing import StringTransport
+        from txdbus import protocol
+        Basic, Server, StubAuth, Wrap, authentication = classes(ctx)
+        self.ctx, self.sc = ctx, sc
+        mode = self.mode = sc['mode']
+        tr = self.tr = StringTransport()
+        lose0 = tr.loseConnection
+        # the Linux-only SO_PEERCRED lookup of a server's first read: the transport always offers a socket, so the
+        # scenario runs whatever the platform switch says; when the switch is where we know it, both branches are driven
+        tr.socket = _FakeSocket()
+        self.linux = bool(sc.get('linux')) and mode.endswith('server')
+        self._set_platform()
+        wrapbox = []
+
+        def wrapped(cls_):
+            # the public hook `authenticator` (a class or any callable): record each handled line and its outcome
+            def make(*a):
+                w = Wrap(cls_(*a), p)
+                wrapbox.append(w)
+                return w
+            return make
+        try:
+            if mode in ('binary', 'stub-client', 'stub-server'):
+                p = Basic.StubServer() if mode == 'stub-server' else Basic()
+                script = 's' if mode == 'binary' else sc.get('script', '')
+                cls = type('StubAuthS', (StubAuth,), {'script': script})
                 from zope.interface import classImplements
                 classImplements(cls, protocol.IDBusAuthenticator)
                 p.authenticator = cls
@@ -524,81 +534,174 @@ def observe(ctx, sc):
             else:
                 raise ValueError(mode)
             p._rec_init()
+            p.swallow = bool(sc.get('swallow'))
             p.factory = _FakeFactory()
             p.makeConnection(tr)
-            if sc.get('fds'):
-                p._receivedFDs = list(sc['fds'])
             if mode.startswith('real') and not wrapbox:
                 raise HarnessFault('the authenticator hook was not used by connectionMade')
-    except HarnessFault:
-        raise
-    except (AttributeError, TypeError) as e:
-        raise HarnessFault('setting up mode %s failed: %s: %s' % (mode, type(e).__name__, e))
-    wrap = wrapbox[0] if wrapbox else None
+            if mode == 'binary':
+                # the handshake of a binary-mode scenario: a read of its own, not part of the scenario
+                p.dataReceived(self.PRELUDE)
+                if not p._authenticated or p.effects != ['L' + b'BEGIN'.hex()] or tr.disconnecting:
+                    raise HarnessFault('the prelude handshake (BEGIN in a read of its own, stub authenticator) did not '
+                                       'end in binary mode: effects %r' % (p.effects[:4],))
+                p._rec_init()
+            for fd in (sc.get('fds') or []):
+                p.fileDescriptorReceived(fd)          # as the transport queues a descriptor
+        except HarnessFault:
+            raise
+        except (AttributeError, TypeError) as e:
+            raise HarnessFault('setting up mode %s failed: %s: %s' % (mode, type(e).__name__, e))
+        self.p = p
+        self.wrap = wrapbox[0] if wrapbox else None
 
-    def lose():
-        p.effects.append('X')
-        lose0()
-    tr.loseConnection = lose
+        def lose():
+            p.effects.append('X')
+            lose0()
+        tr.loseConnection = lose
 
-    crashed = None
-    if 'max_msg' in sc:
-        # the class constant lowered for this connection: code that consults it while framing is exercised
-        # at this scale; the unchanged dataReceived never reads it
-        p.MAX_MSG_LENGTH = sc['max_msg']
-    pending = [rd if isinstance(rd, bytes) else bytes.fromhex(rd) for rd in (sc.get('_reads') or sc['reads'])]
-    pending.reverse()                       # pop() takes the next read
-    nest = {int(k): v for k, v in (sc.get('nest') or {}).items()}
-    raise_at = sc.get('raise_at')
-    if nest or raise_at is not None:
-        def hook(j):
-            # (a) the handler of message j feeds the next read(s) of the SAME stream before it returns (a peer on a
-            #     synchronous in-memory transport answering at once); (b) the handler of message j raises
-            for _ in range(nest.get(j, 0)):
-                if pending:
-                    p.dataReceived(pending.pop())
-            if raise_at == j:
-                raise HandlerError('handler of message %d' % j)
-        p.hook = hook
-    raised = 0
-    while pending:
+        self.crashed = None
+        self.dead = False          # the reactor no longer reads from it (exception escaped / connectionLost)
+        self.raised = 0
+        self.fed = []              # the reads that were delivered to dataReceived (hex), in order
+        if 'max_msg' in sc:
+            # the class constant lowered for this connection: code that consults it while framing is exercised
+            # at this scale; the unchanged dataReceived never reads it
+            p.MAX_MSG_LENGTH = sc['max_msg']
+        self.pending = []          # reads still to come, last = next (single-connection scenarios; nested handlers)
+        nest = {int(k): v for k, v in (sc.get('nest') or {}).items()}
+        raise_at = sc.get('raise_at')
+        if nest or raise_at is not None:
+            def hook(j):
+                # (a) the handler of message j feeds the next read(s) of the SAME stream before it returns (a peer on a
+                #     synchronous in-memory transport answering at once); (b) the handler of message j raises
+                for _ in range(nest.get(j, 0)):
+                    if self.pending:
+                        self._set_platform()
+                        p.dataReceived(self.pending.pop())
+                if raise_at == j:
+                    raise HandlerError('handler of message %d' % j)
+            p.hook = hook
+
+    def _set_platform(self):
+        from txdbus import protocol
+        if hasattr(protocol, '_is_linux'):
+            protocol._is_linux = self.linux
+
+    def feed(self, data):
+        """One `dataReceived`.  -> None | 'handler' (a scheduled handler raised) | 'crashed' (any other exception
+        escaped: the reactor drops the connection)."""
+        self._set_platform()             # a module-level switch: other connections of the scenario may want the other branch
+        if len(data) <= 10 ** 6:
+            self.fed.append(bytes(data).hex())
         try:
-            p.dataReceived(pending.pop())
+            self.p.dataReceived(data)
         except HandlerError:
-            raised += 1                     # caught as a transport would; the connection is kept for the schedule
-            if not pending:
-                pending.append(b'')         # what was buffered behind the failing message is framed by the next read
+            self.raised += 1
+            return 'handler'
         except Exception as e:
             import traceback
             tb = traceback.extract_tb(e.__traceback__)
             if isinstance(e, (AttributeError, TypeError)) and tb and tb[-1].filename.endswith(
                     ('harness/c04.py', 'harness/c20.py')):
                 raise HarnessFault('%s inside the harness at line %d: %s' % (type(e).__name__, tb[-1].lineno, e))
-            crashed = type(e).__name__
-            p.effects.append('!')
-            break
-    ctx.impl_trace()
-    # `_buffer` and `_authenticated` are pinned by the test suite; the cached length and the first-byte flag are
-    # not: compared when they are where we know them, '?' otherwise (the buffer determines both behaviourally)
-    nxt = getattr(p, '_nextMsgLen', None)
-    fb = getattr(p, '_firstByte', None)
-    final = '%s %s %d %s %d' % (bytes(p._buffer).hex() or '-', '?' if not isinstance(nxt, int) else nxt,
-                                1 if p._authenticated else 0, '?' if fb is None else (1 if fb else 0),
-                                1 if tr.disconnecting else 0)
-    for name, v in (('_nextMsgLen', nxt), ('_firstByte', fb)):
-        if v is None and name not in _MISSING:
-            _MISSING.add(name)
-            ctx.note('private attribute %s not found on the protocol: left out of the compared final state' % name)
-    if wrap is not None:
-        script = ''.join(wrap.script)
-    else:
-        script = sc.get('script', '')
-    return {'effects': p.effects, 'final': final, 'parsed': p.parsed, 'raws': p.raws, 'script': script,
-            'crashed': crashed, 'authenticated': bool(p._authenticated), 'parse_failed': p.parse_failed,
-            'objs': p.objs, 'hooks': p.hooks, 'fds': list(getattr(p, '_receivedFDs', None) or [])}
+            self.crashed = type(e).__name__
+            self.p.effects.append('!')
+            self.dead = True
+            self.exc = e
+            return 'crashed'
+        return None
+
+    def lose(self, reason=None):
+        """What the reactor does when the peer goes away or after an exception escaped `dataReceived`."""
+        from twisted.python.failure import Failure
+        from twisted.internet.error import ConnectionDone
+        self.dead = True
+        try:
+            self.p.connectionLost(Failure(reason if reason is not None else ConnectionDone()))
+        except Exception as e:                      # what connectionLost does is not C04's matter
+            if 'connectionLost' not in _NOTED:
+                _NOTED.add('connectionLost')
+                self.ctx.note('connectionLost raised %s: %s (ignored)' % (type(e).__name__, e))
+
+    def obs(self):
+        ctx, p, tr = self.ctx, self.p, self.tr
+        ctx.impl_trace()
+        # `_buffer` and `_authenticated` are pinned by the test suite; the cached length and the first-byte flag are
+        # not: compared when they are where we know them, '?' otherwise (the buffer determines both behaviourally)
+        nxt = getattr(p, '_nextMsgLen', None)
+        fb = getattr(p, '_firstByte', None)
+        final = '%s %s %d %s %d' % (bytes(p._buffer).hex() or '-', '?' if not isinstance(nxt, int) else nxt,
+                                    1 if p._authenticated else 0, '?' if fb is None else (1 if fb else 0),
+                                    1 if tr.disconnecting else 0)
+        for name, v in (('_nextMsgLen', nxt), ('_firstByte', fb)):
+            if v is None and name not in _MISSING:
+                _MISSING.add(name)
+                ctx.note('private attribute %s not found on the protocol: left out of the compared final state' % name)
+        if self.wrap is not None:
+            script = ''.join(self.wrap.script)
+        else:
+            script = self.sc.get('script', '')
+        return {'effects': p.effects, 'final': final, 'parsed': p.parsed, 'raws': p.raws, 'script': script,
+                'crashed': self.crashed, 'authenticated': bool(p._authenticated), 'parse_failed': p.parse_failed,
+                'objs': p.objs, 'hooks': p.hooks, 'fds': list(getattr(p, '_receivedFDs', None) or []),
+                'fed': self.fed, 'raised': self.raised}
+
+
+def observe(ctx, sc):
+    """Run one single-connection scenario on the real code.
+    -> dict(effects, final, parsed, raws, script, crashed, ...)"""
+    if sc.get('mode') == 'multi':
+        return observe_history(ctx, sc)
+    c = Conn(ctx, sc)
+    c.pending = [rd if isinstance(rd, bytes) else bytes.fromhex(rd) for rd in (sc.get('_reads') or sc['reads'])]
+    c.pending.reverse()                       # pop() takes the next read
+    while c.pending:
+        r = c.feed(c.pending.pop())
+        if r == 'handler':
+            # caught as a transport would; the connection is kept for the schedule
+            if not c.pending:
+                c.pending.append(b'')         # what was buffered behind the failing message is framed by the next read
+        elif r == 'crashed':
+            break                             # the reactor drops the connection: no further read
+    return c.obs()
+
+
+def observe_history(ctx, sc):
+    """A HISTORY over several connections of one process (mode 'multi'): `events` = [op, connection, argument]:
+    'open' (make the connection), 'read' (one dataReceived), 'fd' (one fileDescriptorReceived), 'lose' (connectionLost).
+    Connections are made when their 'open' event comes, live side by side, and are judged one by one.  A connection
+    on which an exception escaped `dataReceived` is dropped as the reactor drops it (connectionLost, no further reads:
+    its later 'read' events are skipped); the OTHER connections go on.  A connection whose scheduled handler raised
+    (`raise_at`) is dropped too unless it says `after_raise: keep`.  -> list of observations, one per connection."""
+    conns = {}
+    for ev in sc['events']:
+        op, k = ev[0], ev[1]
+        if op == 'open':
+            conns[k] = Conn(ctx, sc['conns'][k])
+            continue
+        c = conns[k]
+        if op == 'read':
+            if c.dead:
+                continue
+            r = c.feed(bytes.fromhex(ev[2]))
+            if r == 'crashed':
+                c.lose(c.exc)
+            elif r == 'handler' and c.sc.get('after_raise') != 'keep':
+                c.lose(HandlerError('handler'))
+        elif op == 'fd':
+            if not c.dead:
+                c.p.fileDescriptorReceived(ev[2])
+        elif op == 'lose':
+            if not c.dead:
+                c.lose()
+        else:
+            raise ValueError(op)
+    return [conns[k].obs() if k in conns else None for k in range(len(sc['conns']))]
 
 
 _MISSING = set()
+_NOTED = set()
 
 
 def strip_endian(model_out):
@@ -702,7 +805,7 @@ def classify(sc, obs):
         return 'delivery-after-unparsable-message', (
             'an unparsable message inside a coalesced read: delivered %d raw messages, exception %r; expected the '
             'first %d and the parse error escaping dataReceived' % (len(obs['raws']), obs['crashed'], k))
-    if obs['raws'] == sent and obs['parsed'] == expected_of(sent):
+    if obs['raws'] == sent and obs['parsed'] == expected_of(sent, sc.get('fds') if sc.get('judge_fds') else ()):
         # every message reaches the hook of ITS type (the property observes the calls of the four hooks)
         want_hooks = [HOOK_OF_TYPE.get(d['type']) for d in obs['parsed']]
         if obs.get('hooks') is not None and obs['hooks'] != want_hooks:
@@ -783,14 +886,23 @@ class Batch:
                 if SKIPPED[it[0]] == 1:
                     ctx.note('stream %s: scenario skipped, the harness could not run it (%s)' % (it[0], e))
         items = kept
-        with_model = [k for k, (_, sc, _, _) in enumerate(items) if not sc.get('no_model')]
-        mo = ctx.model([model_line(items[k][1], obs[k]['script']) for k in with_model])
-        out = None
-        if mo is not None:
-            out = [None] * len(items)
-            for k, line in zip(with_model, mo):
-                out[k] = line
+        # one driver call for the whole batch: one line per single-connection scenario, one per connection of a history
+        lines, where = [], []
+        for k, (_, sc, _, _) in enumerate(items):
+            if sc['mode'] == 'multi':
+                for j, csc, o in history_parts(sc, obs[k]):
+                    if not csc.get('no_model'):
+                        lines.append(model_line(csc, o['script']))
+                        where.append((k, j))
+            elif not sc.get('no_model'):
+                lines.append(model_line(sc, obs[k]['script']))
+                where.append((k, None))
+        mo = ctx.model(lines)
+        out = dict(zip(where, mo)) if mo is not None else None
         for k, ((stream, sc, oracle, sample), o) in enumerate(zip(items, obs)):
+            if sc['mode'] == 'multi':
+                report_history(ctx, stream, sc, o, out, k, oracle)
+                continue
             nontrivial = bool(o['effects'])
             if 'compact_huge' in sc:
                 ctx.case(stream, sample={'mode': sc['mode'], 'compact_huge': sc['compact_huge']})
@@ -833,26 +945,8 @@ class Batch:
             if oracle and sc['mode'] != 'binary' and refused_by_authenticator(sc, o['authenticated'], o['effects'],
                                                                                 o['script']):
                 ctx.stat('%s:not-authenticated(S3 only)' % stream)
-            if out is not None and out[k] is not None:
-                il = impl_line(o)
-                if sc.get('parse'):
-                    # the composed model: framing part (compared as usual), then the parsed messages
-                    mhead, sep, mparsed = out[k].partition(' || ')
-                    ml = strip_endian(mhead) + sep + mparsed
-                    il = il + ' || ' + parsed_line(o)
-                else:
-                    ml = strip_endian(out[k])
-                if o['parse_failed'] and o['crashed'] and sc.get('parse'):
-                    # `recvRun` models the escaping exception (effects cut, `!`, later frames buffered): compared in full
-                    if ml != il:
-                        ctx.disagree(stream, shrink_sc(sc), clip(ml), clip(il))
-                elif o['parse_failed'] and o['crashed']:
-                    # the model frames only: its effects must START with what was delivered before the parse error
-                    want = ''.join(e + ' ' for e in o['effects'] if e != '!')
-                    if not ml.startswith(want):
-                        ctx.disagree(stream, shrink_sc(sc), clip(ml), clip(il))
-                elif ml != il:
-                    ctx.disagree(stream, shrink_sc(sc), clip(ml), clip(il))
+            if out is not None and (k, None) in out:
+                compare_model(ctx, stream, shrink_sc(sc), sc, o, out[(k, None)])
             if oracle:
                 key, what = classify(sc, o)
                 if key:
@@ -860,6 +954,137 @@ class Batch:
                                   observed={'delivered_raw': [clip(r.hex()) for r in o['raws']][:20],
                                             'n_delivered': len(o['raws']), 'exception': o['crashed']},
                                   expected={'n_sent': len(sc['sent']), 'rule': 'delivered == sent, in order'})
+
+
+def compare_model(ctx, stream, inp, sc, o, mline):
+    """S3 for one connection: the driver's line against the observation of the real code."""
+    il = impl_line(o)
+    if sc.get('parse'):
+        # the composed model: framing part (compared as usual), then the parsed messages
+        mhead, sep, mparsed = mline.partition(' || ')
+        ml = strip_endian(mhead) + sep + mparsed
+        il = il + ' || ' + parsed_line(o)
+    else:
+        ml = strip_endian(mline)
+    if o['parse_failed'] and o['crashed'] and sc.get('parse'):
+        # `recvRun` models the escaping exception (effects cut, `!`, later frames buffered): compared in full
+        if ml != il:
+            ctx.disagree(stream, inp, clip(ml), clip(il))
+    elif o['parse_failed'] and o['crashed']:
+        # the model frames only: its effects must START with what was delivered before the parse error
+        want = ''.join(e + ' ' for e in o['effects'] if e != '!')
+        if not ml.startswith(want):
+            ctx.disagree(stream, inp, clip(ml), clip(il))
+    elif ml != il:
+        ctx.disagree(stream, inp, clip(ml), clip(il))
+
+
+# --------------------------------------------------------------------------------------- histories of several connections
+def history_parts(sc, obs_list):
+    """The connections of a history one by one: (index, single-connection scenario = the connection's spec with the
+    reads that were delivered to it and the descriptors queued on it, its observation)."""
+    for k, o in enumerate(obs_list):
+        if o is None:
+            continue
+        csc = dict(sc['conns'][k])
+        csc['reads'] = list(o['fed'])
+        fds = [ev[2] for ev in sc['events'] if ev[0] == 'fd' and ev[1] == k]
+        if fds:
+            csc['fds'] = fds
+        yield k, csc, o
+
+
+def judge_history(ctx, sc, obs_list):
+    """The oracle of the statement applied to EVERY connection of the history: connection k delivered exactly the
+    messages sent on connection k, each once, in order, identical content - whatever happened on the others.
+    -> [(k, key, what, csc, o)] for the connections on which it fails."""
+    bad = []
+    for k, csc, o in history_parts(sc, obs_list):
+        key, what = classify(csc, o)
+        if key:
+            bad.append((k, key, what, csc, o))
+    return bad
+
+
+def drop_connections(sc, keep):
+    """The history restricted to the connections in `keep` (renumbered)."""
+    keep = sorted(keep)
+    ren = {k: i for i, k in enumerate(keep)}
+    d = dict(sc)
+    d['conns'] = [sc['conns'][k] for k in keep]
+    d['events'] = [[ev[0], ren[ev[1]]] + list(ev[2:]) for ev in sc['events'] if ev[1] in ren]
+    return d, ren
+
+
+def shrink_history(ctx, sc, k, key):
+    """Greedy: leave out the other connections one at a time, then the events behind the failing connection's last
+    one, as long as connection k still fails.  Every candidate is RUN (same process), never assumed."""
+    def fails(h, kk):
+        try:
+            bad = judge_history(ctx, h, observe_history(ctx, h))
+        except HarnessFault:
+            return False
+        return any(b[0] == kk for b in bad)
+    cur, ck = sc, k
+    while len(cur['conns']) > 1:
+        for cand in [i for i in range(len(cur['conns'])) if i != ck]:
+            h, ren = drop_connections(cur, [i for i in range(len(cur['conns'])) if i != cand])
+            if fails(h, ren[ck]):
+                cur, ck = h, ren[ck]
+                break
+        else:
+            break
+    last = max((n for n, ev in enumerate(cur['events']) if ev[1] == ck), default=len(cur['events']) - 1)
+    if last + 1 < len(cur['events']):
+        h = dict(cur, events=cur['events'][:last + 1])
+        if fails(h, ck):
+            cur = h
+    return cur, ck
+
+
+def report_history(ctx, stream, sc, obs_list, out, k_item, oracle):
+    n_ev = len(sc['events'])
+    total = sum(len(ev[2]) for ev in sc['events'] if ev[0] == 'read')
+    ctx.case(stream, sample=(sc if total <= 1200 else {'mode': 'multi', 'family': sc.get('family'),
+                                                       'connections': len(sc['conns']), 'events': n_ev}),
+             nontrivial=any(o and o['effects'] for o in obs_list))
+    ctx.stat('%s:family=%s' % (stream, sc.get('family')))
+    ctx.stat('%s:connections=%d' % (stream, len(sc['conns'])))
+    ctx.stat('%s:events=%s' % (stream, bucket(n_ev)))
+    for key_, v in (sc.get('stats') or {}).items():
+        ctx.stat('%s:%s=%s' % (stream, key_, v))
+    for k, csc, o in history_parts(sc, obs_list):
+        ctx.stat('%s:connection-mode=%s' % (stream, csc['mode']))
+        ctx.stat('%s:delivered-per-connection=%s' % (stream, bucket(len(o['raws']))))
+        if o['crashed']:
+            ctx.stat('%s:exception=%s' % (stream, o['crashed']))
+        if refused_by_authenticator(csc, o['authenticated'], o['effects'], o['script']):
+            ctx.stat('%s:not-authenticated(S3 only)' % stream)
+        if out is not None and (k_item, k) in out:
+            compare_model(ctx, stream, dict(sc, disagreeing_connection=k), csc, o, out[(k_item, k)])
+    if not oracle:
+        return
+    for k, key, what, csc, o in judge_history(ctx, sc, obs_list):
+        # the same reads on a connection of its own, now: when THAT is delivered correctly, what went wrong came from
+        # the other connections of the history (only the name of the finding depends on this run, not the verdict)
+        try:
+            solo_key = classify(csc, observe(ctx, dict(csc)))[0]
+        except HarnessFault:
+            solo_key = key
+        small, sk = shrink_history(ctx, sc, k, key)
+        if solo_key is None:
+            key = 'delivery-depends-on-other-connection'
+            what = ('connection %d of a history of %d connections in one process (%s): %s; the same reads on a connection '
+                    'of its own are delivered correctly' % (sk, len(small['conns']), sc.get('family'), what))
+        else:
+            what = 'connection %d of a history of %d connections in one process (%s): %s' % (
+                sk, len(small['conns']), sc.get('family'), what)
+        ctx.violation(key, what, inp=dict(small, failing_connection=sk),
+                      observed={'connection': sk, 'delivered_raw': [clip(r.hex()) for r in o['raws']][:20],
+                                'n_delivered': len(o['raws']), 'exception': o['crashed'],
+                                'reads_delivered_to_it': len(o['fed'])},
+                      expected={'n_sent': len(csc['sent']),
+                                'rule': 'every connection delivers exactly the messages sent on it, in order'})
 
 
 def clip(s, n=4000):
@@ -1302,6 +1527,303 @@ def stream_binary_unparsable(ctx, B):
     B.flush()
 
 
+# --------------------------------------------------------------------------------------- several connections, one process
+HIST_MODES = ['stub-client'] * 4 + ['stub-server'] * 3 + ['real-client'] * 2 + ['real-clientconn'] + ['real-server'] * 2
+
+
+def hist_handshake(rng, mode):
+    if mode.startswith('stub'):
+        lines = [rng.choice([b'AUTH X', b'DATA 00', b'']) for _ in range(rng.choice([0, 0, 1, 2]))] + [b'BEGIN']
+        return ((b'\0' if mode == 'stub-server' else b'') + b''.join(l + b'\r\n' for l in lines),
+                'c' * (len(lines) - 1) + 's')
+    return handshake_for(rng, 'real-client' if mode == 'real-clientconn' else mode), ''
+
+
+def hist_reads(rng, mode, hs, raws, style=None):
+    """The reads of one connection of a history.  'three': every message needs three or more reads (fixed header,
+    a continuation that does not complete it, the rest), so that the connection is in mid-message whenever another
+    one is served; 'joined': the end of the handshake shares a read with the first message bytes."""
+    stream = hs + b''.join(raws)
+    style = style or rng.choice(['three', 'three', 'three', 'joined', 'random', 'per-message', 'whole'])
+    if style == 'whole':
+        reads = [stream]
+    elif style == 'per-message':
+        reads = [hs] + list(raws)
+    elif style == 'random':
+        reads = random_partition(rng, stream)
+    else:
+        cuts, pos = [], len(hs)
+        if rng.random() < 0.5 and len(hs) > 2:
+            cuts.append(rng.randrange(1, len(hs)))                   # inside a handshake line
+        if style == 'three' and rng.random() < 0.6:
+            cuts.append(len(hs))
+        for r in raws:
+            cuts.append(pos + 16 + rng.choice([0, 0, 0, 1]))         # just behind the fixed header
+            if len(r) > 19:
+                cuts.append(pos + rng.randrange(18, len(r)))         # a continuation that does not complete it
+            if rng.random() < 0.6:
+                cuts.append(pos + len(r))
+            pos += len(r)
+        reads = cut(stream, [c for c in cuts if 0 < c < len(stream)])
+    reads = [r for r in reads if r] if mode.endswith('server') else reads
+    return reads or [stream]
+
+
+def fd_call(rng, nfds):
+    """A method call that carries `nfds` descriptors (built with `oobFDs=[]`: indices from 0, header field 9)."""
+    _, message, _, _ = _mods()
+    if nfds == 1 and rng.random() < 0.6:
+        return bytes(message.MethodCallMessage('/a', 'M', signature='h', body=[rng.randrange(3, 50)], oobFDs=[]).rawMessage)
+    return bytes(message.MethodCallMessage('/a', 'M', signature='sah', oobFDs=[],
+                                           body=['x', [rng.randrange(3, 50) for _ in range(nfds)]]).rawMessage)
+
+
+def hist_plan(rng, k, mode=None, fate='full', with_fds=False, nmsg=None, style=None):
+    """One connection of a history.  fate: 'full' (everything is delivered), 'lost' (the peer goes away in
+    mid-stream), 'raise-drop' / 'raise-keep' (the handler of one message raises; the reactor drops the connection /
+    the transport catches it and goes on), 'unparsable' (one message frames but does not parse).
+    -> (spec, events of this connection)"""
+    mode = mode or rng.choice(HIST_MODES)
+    hs, script = hist_handshake(rng, mode)
+    n = nmsg if nmsg is not None else rng.choice([1, 2, 2, 3, 4])
+    raws, fds = [], []
+    for _ in range(n):
+        if with_fds and rng.random() < 0.6:
+            q = rng.choice([1, 1, 2, 3])
+            raws.append(fd_call(rng, q))
+            fds += [100 * (k + 1) + len(fds) + i for i in range(q)]
+        else:
+            raws.append(gen_message(rng, short=rng.random() < 0.7)[0])
+    spec = {'mode': mode, 'script': script, 'handshake': hs.hex(),
+            'linux': mode.endswith('server') and rng.random() < 0.5, 'fate': fate}
+    if with_fds:
+        spec['judge_fds'] = True
+    if rng.random() < 0.5:
+        spec['parse'] = True                     # compared with the composed model (driver command P)
+    sent = list(raws)
+    if fate == 'unparsable':
+        b = rng.randrange(n)
+        bad = bytearray(gen_message(rng, short=True)[0])
+        bad[1] = 9
+        raws[b] = bytes(bad)
+        sent = list(raws)
+        spec['bad_index'] = b
+    elif fate in ('raise-drop', 'raise-keep'):
+        j = rng.randrange(n)
+        spec.update(raise_at=j, after_raise=fate[6:], no_model=True)
+        spec.pop('parse', None)
+        if fate == 'raise-drop':
+            sent = raws[:j + 1]
+    if fate in ('unparsable', 'raise-drop', 'raise-keep'):
+        style = style or rng.choice(['whole', 'whole', 'joined', 'random', 'three'])
+    reads = hist_reads(rng, mode, hs, raws, style)
+    ev = [['open', k]] + [['fd', k, f] for f in fds]
+    if fate == 'lost':
+        # the peer goes away: after r reads, preferably in mid-message / mid-line
+        ends, pos = {len(hs)}, len(hs)
+        for r in raws:
+            pos += len(r)
+            ends.add(pos)
+        cum, acc = [], 0
+        for r in reads:
+            acc += len(r)
+            cum.append(acc)
+        mid = [i + 1 for i in range(len(reads) - 1) if cum[i] not in ends and cum[i] > 0]
+        r_ = rng.choice(mid) if mid and rng.random() < 0.85 else rng.randrange(0, len(reads) + 1)
+        got = cum[r_ - 1] if r_ else 0
+        pos, sent = len(hs), []
+        for r in raws:
+            pos += len(r)
+            if pos <= got:
+                sent.append(r)
+        ev += [['read', k, r.hex()] for r in reads[:r_]]
+        if with_fds and rng.random() < 0.7:
+            ev.append(['fd', k, 100 * (k + 1) + 90])       # a descriptor still queued when the connection goes
+        ev.append(['lose', k])
+        spec['lost_in_mid_stream'] = got not in ends
+    else:
+        ev += [['read', k, r.hex()] for r in reads]
+        if fate == 'raise-keep':
+            ev.append(['read', k, ''])           # what was buffered behind the failing message is framed by the next read
+        if fate == 'full' and rng.random() < 0.3:
+            ev.append(['lose', k])
+    spec['sent'] = [r.hex() for r in sent]
+    return spec, ev
+
+
+def interleave(rng, seqs, after=None):
+    """A random merge of the connections' event lists; `after[k] = j`: connection k is made only when all events of
+    connection j are out (a connection that comes after another one was lost)."""
+    after = after or {}
+    ptr = {k: 0 for k in seqs}
+    out = []
+    while True:
+        ready = [k for k in seqs if ptr[k] < len(seqs[k])
+                 and (k not in after or ptr[after[k]] >= len(seqs[after[k]]))]
+        if not ready:
+            return out
+        k = rng.choice(ready)
+        for _ in range(rng.choice([1, 1, 1, 2, 3])):
+            if ptr[k] < len(seqs[k]):
+                out.append(seqs[k][ptr[k]])
+                ptr[k] += 1
+
+
+def history_stats(specs, events):
+    """How often a read is delivered while ANOTHER live connection is in mid-message / mid-line (what a state leak
+    between connections needs in order to show)."""
+    ends, pos, live, n_mid, both = {}, {}, set(), 0, 0
+    for k, sp in enumerate(specs):
+        p = len(sp['handshake']) // 2
+        e = {0, p}
+        for h in sp['sent']:
+            p += len(h) // 2
+            e.add(p)
+        ends[k] = e
+    for ev in events:
+        op, k = ev[0], ev[1]
+        if op == 'open':
+            live.add(k)
+            pos[k] = 0
+        elif op == 'lose':
+            live.discard(k)
+        elif op == 'read':
+            others = [j for j in live if j != k and pos[j] not in ends[j]]
+            if others:
+                n_mid += 1
+                if pos[k] not in ends[k]:
+                    both += 1
+            pos[k] += len(ev[2]) // 2
+    return {'reads-while-another-connection-is-in-mid-message': bucket(n_mid),
+            'reads-with-both-in-mid-message': bucket(both)}
+
+
+def mk_history(family, specs, events):
+    return {'mode': 'multi', 'family': family, 'conns': specs, 'events': events, 'stats': history_stats(specs, events)}
+
+
+def all_merges(a, b):
+    """Every interleaving of two event lists (each keeps its order)."""
+    n = len(a) + len(b)
+    for idx in itertools.combinations(range(n), len(a)):
+        ia, ib, out, s_ = 0, 0, [], set(idx)
+        for i in range(n):
+            if i in s_:
+                out.append(a[ia])
+                ia += 1
+            else:
+                out.append(b[ib])
+                ib += 1
+        yield out
+
+
+def stream_connections(ctx, B):
+    """`connections-interleaved` (state-leak round 2026-09-30, STATE_AUDIT G3 / M1 / M2 / M5): HISTORIES over several
+    connections of one process, every one made by `makeConnection` and brought into binary mode by its own handshake.
+      interleaved        2-4 connections alive side by side (stub / real authenticators, client and server classes,
+                         two of the SAME class among them), their reads merged at random; most messages need three
+                         reads, so a connection is in mid-message (buffer, cached length, byte order set) while
+                         another one is served; descriptors are queued through fileDescriptorReceived
+      lost-then-new      a connection goes away in mid-message / mid-handshake-line / with a descriptor queued; a
+                         new connection (usually the same class) is made afterwards; a third one lives through both
+      raise-then-clean   on connection A the handler of a message raises, or a message does not parse, with further
+                         messages behind it in the same read: A is dropped (or kept by a catching transport); the
+                         connection that was in mid-message meanwhile and the one made afterwards must be clean
+      all-merges         two short connections (same class / client + server): EVERY interleaving of their reads
+      descriptor-shape   fd->A, connect B, fd->B, bytes->A, bytes->B, A lost with a descriptor queued, C connects
+    Oracle (S4): the statement, per connection: exactly the messages sent ON THAT CONNECTION, each once, in order,
+    identical content (descriptor values included).  S3: the model runs every connection's projection on a state of
+    its own (`R` / `P`) - in the model connections share nothing (Properties/C04.lean `history_independent`)."""
+    rng = ctx.rng
+    name = 'connections-interleaved'
+    n = ctx.scale(quick=420, thorough=9000)
+    for _ in range(n):
+        fam = rng.choice(['interleaved', 'interleaved', 'lost-then-new', 'lost-then-new', 'raise-then-clean'])
+        with_fds = rng.random() < 0.35
+        specs, seqs, after = [], {}, {}
+
+        def add(**kw):
+            k = len(specs)
+            sp, ev = hist_plan(rng, k, with_fds=with_fds and kw.get('fate', 'full') in ('full', 'lost'), **kw)
+            specs.append(sp)
+            seqs[k] = ev
+            return k
+        if fam == 'interleaved':
+            a = add()
+            add(mode=specs[a]['mode'] if rng.random() < 0.5 else None)
+            for _ in range(rng.choice([0, 0, 1, 2])):
+                add(fate=rng.choice(['full', 'full', 'lost']))
+        elif fam == 'lost-then-new':
+            a = add(fate='lost', style=rng.choice(['three', 'three', 'joined', 'random']))
+            if rng.random() < 0.6:
+                add()
+            c = add(mode=specs[a]['mode'] if rng.random() < 0.7 else None, style=rng.choice(['three', 'three', None]))
+            after[c] = a
+        else:
+            a = add(fate=rng.choice(['raise-drop', 'raise-drop', 'raise-keep', 'unparsable']))
+            add(mode=specs[a]['mode'] if rng.random() < 0.5 else None, style='three')
+            if rng.random() < 0.6:
+                c = add(mode=specs[a]['mode'] if rng.random() < 0.7 else None)
+                after[c] = a
+        B.add(name, mk_history(fam, specs, interleave(rng, seqs, after)))
+    B.flush()
+    # every interleaving of two short connections
+    for i in range(ctx.scale(quick=3, thorough=40)):
+        m0 = rng.choice(['stub-client', 'stub-server', 'real-client'])
+        m1 = m0 if i % 2 == 0 else rng.choice(HIST_MODES)
+        for _try in range(50):
+            s0, e0 = hist_plan(rng, 0, mode=m0, nmsg=1, style='three')
+            s1, e1 = hist_plan(rng, 1, mode=m1, nmsg=rng.choice([1, 2]), style='three')
+            if len(e0) <= 5 and len(e1) <= 6:
+                break
+        else:
+            continue
+        s0['parse'] = True
+        for ev in all_merges(e0[1:], e1[1:]):
+            B.add(name, mk_history('all-merges', [s0, s1], [e0[0], e1[0]] + ev))
+    B.flush()
+    # the shape of STATE_AUDIT G3, spelled out
+    for i in range(ctx.scale(quick=12, thorough=200)):
+        mode = rng.choice(['stub-client', 'stub-server', 'real-server', 'real-client'])
+        modes = [mode, mode if i % 3 else rng.choice(HIST_MODES), mode]
+        plans = []
+        for k in range(3):
+            hs, script = hist_handshake(rng, modes[k])
+            raws = [fd_call(rng, 1), gen_message(rng, short=True)[0]]
+            if rng.random() < 0.5:
+                raws.reverse()
+            plans.append((hs, script, raws))
+        specs, reads = [], []
+        for k, (hs, script, raws) in enumerate(plans):
+            sent = raws if k else []
+            specs.append({'mode': modes[k], 'script': script, 'handshake': hs.hex(), 'judge_fds': True, 'parse': True,
+                          'fate': 'lost' if k == 0 else 'full', 'linux': False})
+            reads.append(hist_reads(rng, modes[k], hs, raws, 'three'))
+        # A: the handshake and the first header only, then lost in mid-message with both descriptors queued
+        hsA = len(plans[0][0])
+        ra, acc = [], 0
+        for r in reads[0]:
+            ra.append(r)
+            acc += len(r)
+            if acc > hsA + 16:
+                break
+        done_a = [m for m in plans[0][2][:1] if acc >= hsA + len(m)]
+        specs[0]['sent'] = [m.hex() for m in done_a]
+        specs[1]['sent'] = [m.hex() for m in plans[1][2]]
+        specs[2]['sent'] = [m.hex() for m in plans[2][2]]
+        ev = [['open', 0], ['fd', 0, 101], ['open', 1], ['fd', 1, 201]]
+        rb = reads[1]
+        hb = max(1, len(rb) // 2)
+        ev += [['read', 0, r.hex()] for r in ra[:1]] + [['read', 1, r.hex()] for r in rb[:hb]]
+        ev += [['read', 0, r.hex()] for r in ra[1:]] + [['fd', 0, 102], ['lose', 0], ['open', 2], ['fd', 2, 301]]
+        rc = reads[2]
+        hc = max(1, len(rc) // 2)
+        ev += [['read', 2, r.hex()] for r in rc[:hc]] + [['read', 1, r.hex()] for r in rb[hb:]]
+        ev += [['read', 2, r.hex()] for r in rc[hc:]]
+        B.add(name, mk_history('descriptor-shape', specs, ev))
+    B.flush()
+
+
 # --------------------------------------------------------------------------------------- the seam C04 / C03
 BODIES2 = [
     ('b', lambda rng, S, I: [rng.random() < 0.5]),
@@ -1513,6 +2035,7 @@ def run_one(ctx, stream, sc, oracle=True):
 def run(ctx):
     SKIPPED.clear()
     _MISSING.clear()
+    _NOTED.clear()
     del SERIALIZER_NOTES[:]
     import logging  # noqa
     from twisted.python import log as tlog  # noqa  (log.msg without observers is silent)
@@ -1531,6 +2054,7 @@ def run(ctx):
             import traceback
             errors.append('%s: %s' % (fn.__name__, traceback.format_exc()[-1500:]))
             B.items = []
+    guarded(stream_connections)
     guarded(stream_binary_coalesced)
     guarded(stream_binary_huge)
     guarded(stream_binary_cuts)
